@@ -25,7 +25,9 @@ META = {
         "the same status and result/error. Ground truth is needed only at step leaves. Non-trivial = >=1 position "
         "observed in >=2 invocations with a non-None value or an exception and the two runs have different invocation "
         "counts; distinct = (program shape, both invocation-outcome patterns). Second stage: the same programs with steps that "
-        "return another value every time their function really runs (tickets), judged by rule (a) alone."
+        "return another value every time their function really runs (tickets), a third of them with map/parallel that may decide early, "
+        "judged by rule (a) alone. Third stage: seven fixed programs (empty error messages, tolerated failures inside batch results, oversized "
+        "early-decided batches with branches that never started, nested batch results) run, suspended and replayed."
     ),
     "assumptions": [
         "excluded by construction: crash points inside at-most-once attempts (C04's subject), map/parallel that can decide before all branches finish, callback/invoke timeouts",
@@ -58,8 +60,9 @@ def fresh_cases(draw):
     """Steps that return another value each time their function really runs (what durable steps exist for). No
     metamorphic partner here (an interrupted at-least-once step legitimately runs again); the per-run rule applies:
     once a position delivered an outcome, every later replay delivers the same one."""
-    prog = draw(G.programs(max_stmts=6, sems=("least", "most"), deterministic=True, wfcond_fail=False, wait_all=True, fresh=True))
-    return {"prog": prog, "limits": draw(st.sampled_from([{}, {}, {"checkpoint": 300}])), "backend": draw(G.backend_cfgs()),
+    early = draw(st.integers(0, 2)) == 0  # map/parallel that may decide before every branch finished (judged by rule (a) only)
+    prog = draw(G.programs(max_stmts=6, sems=("least", "most"), deterministic=True, wfcond_fail=False, wait_all=not early, early_completion=early, fresh=True))
+    return {"prog": prog, "limits": draw(st.sampled_from([{}, {}, {"checkpoint": 300}, {"checkpoint": 120}])), "backend": draw(G.backend_cfgs()),
             "plan": {"crashes": draw(G.crash_plans(max_crashes=2))}, "sched": draw(G.schedules()), "line": []}
 
 
@@ -76,6 +79,44 @@ def _fresh_nontrivial(run, case):
 def _fresh_stage(ctx):
     WC.run_generated(ctx, fresh_cases(), PROPS, n_cases=ctx.budget["random_cases"], nontrivial=_fresh_nontrivial,
                      classes=lambda r, c: ["fresh-value-steps"] + classes(r, c), seed_offset=21)
+
+
+def _fs(v, **k):
+    return {"op": "step", "beh": {"kind": "ret", "v": v}, "sem": "least", "retry": {"kind": "none"}, **k}
+
+
+def _ff(msg, err="UserError", **k):
+    return {"op": "step", "beh": {"kind": "always_fail", "err": err, "msg": msg}, "sem": "least", "retry": {"kind": "none"}, **k}
+
+
+def _try(stmt):
+    return {"op": "try", "body": stmt, "catch": ["Exception"], "handler": []}
+
+
+_W = {"op": "wait", "secs": 1}
+_TOL = {"completion": {"min": None, "tol": 3, "pct": None}}
+DIRECTED = [
+    # (label, body, limits): each is run, suspended by the wait(s) and replayed; rule (a) judges the replays
+    ("failing step with an empty message, caught", [_try(_ff("")), _W, _fs(1), _W], {}),
+    ("failing step inside a child context, empty message", [_try({"op": "child", "body": [_ff("")]}), _W, _fs(1)], {}),
+    ("parallel with tolerated failures (empty / non-empty messages)", [{"op": "parallel", "branches": [[_ff("")], [_fs(2)], [_ff("x y", "ValueError")]], "cfg": _TOL}, _W, _fs(3), _W], {}),
+    ("map with a failing item, result above the limit", [{"op": "map", "items": [1, 2, 3], "body": [_ff("")], "cfg": {"max_concurrency": None, **_TOL}}, _W, _fs(3)], {"checkpoint": 120}),
+    ("early decision with branches that never started, result above the limit",
+     [{"op": "parallel", "branches": [[{"op": "step", "beh": {"kind": "big", "n": 400, "ch": "q"}, "sem": "least", "retry": {"kind": "none"}}], [_fs(2, sleep=0.5)], [_fs(3, sleep=0.5)]],
+       "cfg": {"max_concurrency": 1, "completion": {"min": 1, "tol": 3, "pct": None}, "explicit": True}}, _W, _fs(4), _W], {"checkpoint": 300}),
+    ("early decision (failure tolerance) with a never-started item, map above the limit",
+     [{"op": "map", "items": [1, 2, 3, 4], "body": [_ff("boom")], "cfg": {"max_concurrency": 1, "completion": {"min": None, "tol": 0, "pct": None}}}, _W, _fs(4)], {"checkpoint": 60}),
+    ("nested batch result returned by a branch", [{"op": "parallel", "unwrap": True, "branches": [[{"op": "map", "items": [1, 2], "body": [_fs(7)], "cfg": {"max_concurrency": None, **_TOL}}], [_fs(2)]], "cfg": _TOL}, _W, _fs(1)], {}),
+]
+
+
+def _directed_stage(ctx):
+    for i, (label, body, limits) in enumerate(DIRECTED):
+        if ctx.nshards > 1 and i % ctx.nshards != ctx.shard % ctx.nshards:
+            continue
+        for resp in ("delta", "full"):
+            case = {"prog": {"body": body}, "limits": limits, "backend": {"response": resp}, "plan": {"crashes": []}, "sched": [{"mode": "seq"}], "line": []}
+            WC.report_case(ctx, case, PROPS, nontrivial=lambda r, c: None, classes=lambda r, c: ["directed:" + label], extra_monitors=())
 
 
 def pair_monitor(run, case):
@@ -125,4 +166,4 @@ def classes(run, case):
     return out
 
 
-install(globals(), props=("C02",), cases=cases, nontrivial=nontrivial, classes=classes, extra_monitors=(pair_monitor,), stages=(_fresh_stage,))
+install(globals(), props=("C02",), cases=cases, nontrivial=nontrivial, classes=classes, extra_monitors=(pair_monitor,), stages=(_fresh_stage, _directed_stage))
